@@ -1,3 +1,4 @@
+import re
 from typing import TYPE_CHECKING, Dict, Union
 
 import rdflib
@@ -7,6 +8,23 @@ from pyshacl.errors import ReportableRuntimeError
 
 if TYPE_CHECKING:
     from pyshacl.shape import ShapesGraph
+
+
+_PLAIN_LOCAL_NAME = re.compile(r"[A-Za-z_][A-Za-z0-9_]*")
+
+
+def _as_path_primary(path_string: str) -> str:
+    """
+    A path modifier (*, +, ?) and the inverse operator (^) apply to a PathPrimary: an IRI, a prefixed name or a
+    parenthesised path. Anything else (e.g. an already modified path such as "ex:p+") needs parentheses.
+    """
+    if path_string.startswith("(") and path_string.endswith(")"):
+        return path_string
+    if path_string.startswith("<") and path_string.endswith(">"):
+        return path_string
+    if re.fullmatch(r"[A-Za-z_][A-Za-z0-9_.-]*:[A-Za-z_][A-Za-z0-9_]*|:[A-Za-z_][A-Za-z0-9_]*", path_string):
+        return path_string
+    return f"({path_string})"
 
 
 def shacl_path_to_sparql_path(
@@ -30,8 +48,11 @@ def shacl_path_to_sparql_path(
         if prefixes is not None and len(prefixes) > 0:
             for p, ns in prefixes.items():
                 if string_uri.startswith(ns):
-                    string_uri = ':'.join([p, string_uri.replace(ns, '')])
-                    return string_uri
+                    local_name = string_uri[len(str(ns)) :]
+                    # only abbreviate when the rest of the IRI is a plain local name, otherwise (e.g. "sub/q")
+                    # the prefixed name would not denote the same IRI, or not even parse
+                    if _PLAIN_LOCAL_NAME.fullmatch(local_name):
+                        return ':'.join([p, local_name])
         return f"<{string_uri}>"
     elif isinstance(path_node, rdflib.Literal):
         raise ReportableRuntimeError("Values of a property path cannot be a Literal.")
@@ -60,7 +81,7 @@ def shacl_path_to_sparql_path(
         inverse_path_string = shacl_path_to_sparql_path(
             shapes_graph, inverse_path, prefixes=prefixes, recursion=recursion + 1
         )
-        return f"^{inverse_path_string}"
+        return f"^{_as_path_primary(inverse_path_string)}"
 
     find_alternatives = set(shapes_graph.objects(path_node, SH_alternativePath))
     if len(find_alternatives) > 0:
@@ -83,7 +104,7 @@ def shacl_path_to_sparql_path(
         zom_path_string = shacl_path_to_sparql_path(
             shapes_graph, zero_or_more_path, prefixes=prefixes, recursion=recursion + 1
         )
-        return f"{zom_path_string}*"
+        return f"{_as_path_primary(zom_path_string)}*"
 
     find_zero_or_one = set(shapes_graph.objects(path_node, SH_zeroOrOnePath))
     if len(find_zero_or_one) > 0:
@@ -91,7 +112,7 @@ def shacl_path_to_sparql_path(
         zoo_path_string = shacl_path_to_sparql_path(
             shapes_graph, zero_or_one_path, prefixes=prefixes, recursion=recursion + 1
         )
-        return f"{zoo_path_string}?"
+        return f"{_as_path_primary(zoo_path_string)}?"
 
     find_one_or_more = set(shapes_graph.objects(path_node, SH_oneOrMorePath))
     if len(find_one_or_more) > 0:
@@ -99,6 +120,6 @@ def shacl_path_to_sparql_path(
         oom_path_string = shacl_path_to_sparql_path(
             shapes_graph, one_or_more_path, prefixes=prefixes, recursion=recursion + 1
         )
-        return f"{oom_path_string}+"
+        return f"{_as_path_primary(oom_path_string)}+"
 
     raise NotImplementedError("That path method to get value nodes of property shapes is not yet implemented.")
